@@ -73,6 +73,12 @@ def value(tag, n):
     return {"t": tag, "p": (f"<{tag}>".encode() * (n // 3 + 1))[:n]}
 
 
+def pre_checks(tier):
+    from ..conformance import real_lock
+
+    return {"conformance_lock": real_lock.run()}
+
+
 def budget(tier):
     if tier == "quick":
         return {"runs": 12000, "chunk": 50, "wall_cap": 400.0, "det_sample": 8}
